@@ -303,6 +303,17 @@ def do_op(op: dict, files: dict) -> dict:
     """Execute one read/convert call; returns {"kind": "read"|"text"|"raise", ...} (JSON-able)."""
     import importlib
 
+    if op["op"] == "interrupt":
+        # the call is killed at its k-th line event inside the package (KeyboardInterrupt-like); what it leaves behind is
+        # what the following calls of the history have to cope with
+        from simkit.inject import Injector, SimFault
+
+        inj = Injector(int(op["k"]))
+        try:
+            inj.run(do_op, op["inner"], files)
+        except SimFault:
+            return {"kind": "interrupted", "where": inj.where}
+        return {"kind": "interrupt_not_reached", "line_events": inj.count}
     path = SIM_PREFIX + op["file"]
     try:
         if op["op"] == "read":
@@ -446,10 +457,11 @@ def run_ops(args: dict) -> dict:
     out = []
     texts = {f["name"]: f["text"] for f in args["pool"]}
     for op in args["ops"]:
-        if op.get("content"):
+        tgt = op["inner"] if op["op"] == "interrupt" else op
+        if tgt.get("content"):
             # the file system changes between calls: this name now holds another pool file's text
-            files[SIM_PREFIX + op["file"]] = texts[op["content"]]
-            _seams["files"][SIM_PREFIX + op["file"]] = texts[op["content"]]
+            files[SIM_PREFIX + tgt["file"]] = texts[tgt["content"]]
+            _seams["files"][SIM_PREFIX + tgt["file"]] = texts[tgt["content"]]
         out.append(json.loads(json.dumps(do_op(op, files))))  # plain JSON types only (lark Tokens are str subclasses)
     return {"obs": out, "clock_reads": clock.reads, "clock_jumps": clock.jumps, "opens": _seams["opens"]}
 
@@ -475,88 +487,101 @@ def allowed_missing(text: str) -> list:
 
 
 def run_c19(args: dict) -> dict:
-    """args: {"file": {"name","text"}, "order": [indices into REPLICAS], "clock": [deltas per clock read]}"""
+    """One session: 1-2 option files, their conversion replicas interleaved in a seeded order.
+
+    args: {"files": [{"name","text"}, ...], "order": [[file index, index into REPLICAS], ...], "clock": [deltas per clock read]}
+          (older replays: {"file": {...}, "order": [replica indices]})"""
     from worlds import ampcheck
 
-    f = args["file"]
-    files = _files_of([f])
+    flist = args["files"] if "files" in args else [args["file"]]
+    order = args.get("order")
+    if order is None:
+        order = [[0, i] for i in range(6)]
+    order = [[0, o] if isinstance(o, int) else list(o) for o in order]
+    files = _files_of(flist)
     clock = install_seams(files)
     clock.schedule = list(args.get("clock") or [])
-    order = args.get("order") or list(range(6))
     obs = {}
     stats = {"conversions": 0, "clock_reads": 0, "clock_jumps": 0, "precondition_unmet": 0, "amplitudes": 0, "lineshapes": 0,
-             "spin_factors": 0, "parameters": 0, "arrays": 0, "replicas_compared": 0}
-    out = {"verdict": "ok", "stats": stats, "file": f["name"]}
+             "spin_factors": 0, "parameters": 0, "arrays": 0, "replicas_compared": 0, "files_in_session": len(flist),
+             "replicas_with_other_file_in_between": 0}
+    out = {"verdict": "ok", "stats": stats, "file": "+".join(f["name"] for f in flist), "lineshape_kinds": [], "spin_kinds": []}
+    ls_kinds, sf_kinds = set(), set()
     try:
-        for idx in order:
+        last_file = None
+        seen_files = set()
+        for fi, idx in order:
+            f = flist[fi]
             lang, how = REPLICAS[idx]
             op = {"op": "convert", "lang": lang, "file": f["name"], "ret": how == "ret"}
             if how == "cli":
                 op["via"] = "cli"
+            if fi in seen_files and last_file != fi:
+                stats["replicas_with_other_file_in_between"] += 1
+            seen_files.add(fi)
+            last_file = fi
             o = do_op(op, files)
             stats["conversions"] += 1
             if o["kind"] == "raise":
-                raise ampcheck.OracleFail("converts_to_both_languages", {"replica": [lang, how], "exc": o["exc"], "msg": o["msg"]})
-            obs[(lang, how)] = o
+                raise ampcheck.OracleFail("converts_to_both_languages", {"file": f["name"], "replica": [lang, how], "exc": o["exc"], "msg": o["msg"]})
+            obs[(fi, lang, how)] = o
         stats["clock_reads"], stats["clock_jumps"] = clock.reads, clock.jumps
-        texts = {}
-        for lang in ("cpp", "py"):
-            present = [h for h in ("print", "ret", "cli") if (lang, h) in obs]
-            if not present:
-                continue
-            if ("ret" in present) and obs[(lang, "ret")]["stdout"] != "":
-                raise ampcheck.OracleFail("returned_text_is_the_printed_text",
-                                          {"language": lang, "what": "ret_output=True wrote to stdout", "stdout": obs[(lang, "ret")]["stdout"][:300]})
-            for h in present:
-                if h != "ret" and obs[(lang, h)]["returned"] is not None:
-                    raise ampcheck.OracleFail("returned_text_is_the_printed_text", {"language": lang, "what": f"{h} call returned a value"})
-            got = {h: op_text(obs[(lang, h)]) for h in present}
-            base = present[0]
-            for h in present[1:]:
-                stats["replicas_compared"] += 1
-                a, b = got[base], got[h]
-                if clock.jumps == 0 and clock.reads >= stats["conversions"]:
-                    same = a == b  # the simulated clock stood still and every conversion read it: even the timestamps agree
-                else:
-                    same = strip_timestamp(a) == strip_timestamp(b) and a.count("\n") == b.count("\n")
-                if not same:
-                    la, lb = a.split("\n"), b.split("\n")
-                    k = next((i for i, (x, y) in enumerate(zip(la, lb)) if x != y and not x.startswith("Generated on")), min(len(la), len(lb)))
+        exact = clock.jumps == 0 and clock.reads >= stats["conversions"]
+        for fi, f in enumerate(flist):
+            texts = {}
+            for lang in ("cpp", "py"):
+                present = [h for h in ("print", "ret", "cli") if (fi, lang, h) in obs]
+                if not present:
+                    continue
+                if ("ret" in present) and obs[(fi, lang, "ret")]["stdout"] != "":
                     raise ampcheck.OracleFail("returned_text_is_the_printed_text",
-                                              {"language": lang, "replicas": [base, h], "first_differing_line": k,
-                                               base: la[k] if k < len(la) else "<end>", h: lb[k] if k < len(lb) else "<end>",
-                                               "lengths": [len(la), len(lb)]})
-            if "ret" in got:
-                texts[lang] = got["ret"]
-            elif present:
-                texts[lang] = got[present[0]]
-        allow = allowed_missing(f["text"])
-        py_rec = cpp_rec = None
-        if "py" in texts:
-            ns, injected = ampcheck.exec_python(texts["py"], allow)
-            stats["precondition_unmet"] += len(injected)
-            py_rec = ampcheck.python_record(ns)
-            if not py_rec["decayinfo_amplitudes_assigned"]:
-                raise ampcheck.OracleFail("python_output_runs_against_goofit_api", {"error": "DK3P_DI.amplitudes was never assigned the amplitude list"})
-            ampcheck.coefficient_names_distinct(py_rec, "py")
-        if "cpp" in texts:
-            cpp_rec = ampcheck.cpp_record(texts["cpp"])
-            ampcheck.cpp_declared_before_use(cpp_rec, allow)
-            ampcheck.coefficient_names_distinct(cpp_rec, "cpp")
-        if py_rec and cpp_rec:
-            if allow:  # symbols injected on the Python side have no counterpart to compare
-                for a in py_rec["amplitudes"] + cpp_rec["amplitudes"]:
-                    for l in a["lineshapes"]:
-                        l["args"] = ["<undefined by input>" if x in allow else x for x in l["args"]]
-                py_rec["parameters"] = [p for p in py_rec["parameters"] if p["var"] not in allow]
-            ampcheck.compare_records(cpp_rec, py_rec)
-            stats["amplitudes"] = len(py_rec["amplitudes"])
-            stats["lineshapes"] = sum(len(a["lineshapes"]) for a in py_rec["amplitudes"])
-            stats["spin_factors"] = sum(len(a["spin_factors"]) for a in py_rec["amplitudes"])
-            stats["parameters"] = len(py_rec["parameters"])
-            stats["arrays"] = len(py_rec["arrays"])
-            out["lineshape_kinds"] = sorted({l["kind"] for a in py_rec["amplitudes"] for l in a["lineshapes"]})
-            out["spin_kinds"] = sorted({s[0] for a in py_rec["amplitudes"] for s in a["spin_factors"]})
+                                              {"file": f["name"], "language": lang, "what": "ret_output=True wrote to stdout",
+                                               "stdout": obs[(fi, lang, "ret")]["stdout"][:300]})
+                for h in present:
+                    if h != "ret" and obs[(fi, lang, h)]["returned"] is not None:
+                        raise ampcheck.OracleFail("returned_text_is_the_printed_text", {"file": f["name"], "language": lang, "what": f"{h} call returned a value"})
+                got = {h: op_text(obs[(fi, lang, h)]) for h in present}
+                base = present[0]
+                for h in present[1:]:
+                    stats["replicas_compared"] += 1
+                    a_, b_ = got[base], got[h]
+                    # exact (timestamps included) only if the simulated clock stood still and every conversion read it
+                    same = (a_ == b_) if exact else (strip_timestamp(a_) == strip_timestamp(b_) and a_.count("\n") == b_.count("\n"))
+                    if not same:
+                        la, lb = a_.split("\n"), b_.split("\n")
+                        k = next((i for i, (x, y) in enumerate(zip(la, lb)) if x != y and not x.startswith("Generated on")), min(len(la), len(lb)))
+                        raise ampcheck.OracleFail("returned_text_is_the_printed_text",
+                                                  {"file": f["name"], "language": lang, "replicas": [base, h], "first_differing_line": k,
+                                                   base: la[k] if k < len(la) else "<end>", h: lb[k] if k < len(lb) else "<end>",
+                                                   "lengths": [len(la), len(lb)]})
+                texts[lang] = got["ret"] if "ret" in got else got[present[0]]
+            allow = allowed_missing(f["text"])
+            py_rec = cpp_rec = None
+            if "py" in texts:
+                ns, injected = ampcheck.exec_python(texts["py"], allow)
+                stats["precondition_unmet"] += len(injected)
+                py_rec = ampcheck.python_record(ns)
+                if not py_rec["decayinfo_amplitudes_assigned"]:
+                    raise ampcheck.OracleFail("python_output_runs_against_goofit_api", {"error": "DK3P_DI.amplitudes was never assigned the amplitude list"})
+                ampcheck.coefficient_names_distinct(py_rec, "py")
+            if "cpp" in texts:
+                cpp_rec = ampcheck.cpp_record(texts["cpp"])
+                ampcheck.cpp_declared_before_use(cpp_rec, allow)
+                ampcheck.coefficient_names_distinct(cpp_rec, "cpp")
+            if py_rec and cpp_rec:
+                if allow:  # symbols injected on the Python side have no counterpart to compare
+                    for a_ in py_rec["amplitudes"] + cpp_rec["amplitudes"]:
+                        for l in a_["lineshapes"]:
+                            l["args"] = ["<undefined by input>" if x in allow else x for x in l["args"]]
+                    py_rec["parameters"] = [p_ for p_ in py_rec["parameters"] if p_["var"] not in allow]
+                ampcheck.compare_records(cpp_rec, py_rec)
+                stats["amplitudes"] += len(py_rec["amplitudes"])
+                stats["lineshapes"] += sum(len(a_["lineshapes"]) for a_ in py_rec["amplitudes"])
+                stats["spin_factors"] += sum(len(a_["spin_factors"]) for a_ in py_rec["amplitudes"])
+                stats["parameters"] += len(py_rec["parameters"])
+                stats["arrays"] += len(py_rec["arrays"])
+                ls_kinds.update(l["kind"] for a_ in py_rec["amplitudes"] for l in a_["lineshapes"])
+                sf_kinds.update(s_[0] for a_ in py_rec["amplitudes"] for s_ in a_["spin_factors"])
     except ampcheck.OracleFail as e:
         sig = {"check": e.check}
         if e.check == "converts_to_both_languages":
@@ -564,42 +589,60 @@ def run_c19(args: dict) -> dict:
         if e.check == "languages_describe_same_model":
             sig["what"] = e.detail.get("what")
         out.update(verdict="violation", signature=sig, detail=e.detail)
-    out["abstract"] = [list(REPLICAS[i]) for i in order] + [["jumps", clock.jumps]]
-    out["log_digest"] = hashlib.sha256(json.dumps([out.get("signature"), stats, sorted((k[0] + k[1], hashlib.sha256((op_text(v) or "").encode()).hexdigest())
+    out["lineshape_kinds"], out["spin_kinds"] = sorted(ls_kinds), sorted(sf_kinds)
+    out["abstract"] = [[fi, *REPLICAS[i]] for fi, i in order] + [["jumps", clock.jumps]]
+    out["log_digest"] = hashlib.sha256(json.dumps([out.get("signature"), stats, sorted((str(k), hashlib.sha256((op_text(v) or "").encode()).hexdigest())
                                                                                         for k, v in obs.items())], sort_keys=True).encode()).hexdigest()
     # the same, insensitive to what the property allows to vary with the interpreter's hash seed
     out["log_digest_normalised"] = hashlib.sha256(json.dumps([out.get("signature"), stats, sorted(
-        (k[0] + k[1], hashlib.sha256(json.dumps(normalise_text(op_text(v) or ""), sort_keys=True).encode()).hexdigest()) for k, v in obs.items())],
+        (str(k), hashlib.sha256(json.dumps(normalise_text(op_text(v) or ""), sort_keys=True).encode()).hexdigest()) for k, v in obs.items())],
         sort_keys=True).encode()).hexdigest()
     return out
 
 
 def c19_candidates(case: dict):
-    order = case.get("order") or list(range(6))
+    flist = case["files"] if "files" in case else [case["file"]]
+    order = case.get("order")
+    if order is None:
+        order = [[0, i] for i in range(6)]
+    order = [[0, o] if isinstance(o, int) else list(o) for o in order]
+    base = {k: v for k, v in case.items() if k != "file"}
+    base["files"], base["order"] = flist, order
     if case.get("clock"):
-        yield {**case, "clock": []}
+        yield {**base, "clock": []}
+    # a whole file out of the session
+    if len(flist) > 1:
+        for fi in range(len(flist)):
+            new_order = [[a - (1 if a > fi else 0), b] for a, b in order if a != fi]
+            if new_order:
+                yield {**base, "files": flist[:fi] + flist[fi + 1 :], "order": new_order}
     if len(order) > 1:
         for i in range(len(order)):
-            yield {**case, "order": order[:i] + order[i + 1 :]}
-    lines = case["file"]["text"].split("\n")
-    n = len(lines)
-    size = n // 2
-    while size >= 1:
-        for start in range(0, n, size):
-            new = lines[:start] + lines[start + size :]
-            if len(new) < n and any(x.startswith("EventType") for x in new):
-                yield {**case, "file": {**case["file"], "text": "\n".join(new)}}
-        size //= 2
+            yield {**base, "order": order[:i] + order[i + 1 :]}
+    for fi, f in enumerate(flist):
+        lines = f["text"].split("\n")
+        n = len(lines)
+        size = n // 2
+        while size >= 1:
+            for start in range(0, n, size):
+                new = lines[:start] + lines[start + size :]
+                if len(new) < n and any(x.startswith("EventType") for x in new):
+                    yield {**base, "files": flist[:fi] + [{**f, "text": "\n".join(new)}] + flist[fi + 1 :]}
+            size //= 2
 
 
 # ------------------------------------------------------------------ C20: histories
 def op_kind(op: dict) -> str:
+    if op["op"] == "interrupt":
+        return "interrupt:" + op_kind(op["inner"])
     if op["op"] == "read":
         return f"read:{op['cls']}:{op.get('by', 'file')}"
     return f"convert:{op['lang']}:{'cli' if op.get('via') == 'cli' else ('ret' if op.get('ret') else 'print')}"
 
 
 def op_key(op: dict) -> str:
+    if op["op"] == "interrupt":
+        return f"interrupt[{op['k']}]:" + op_key(op["inner"])
     return op_kind(op) + "@" + op["file"] + ("<-" + op["content"] if op.get("content") else "")
 
 
@@ -607,11 +650,13 @@ def gen_history(rng: random.Random, pool: list, cfg: dict | None = None) -> dict
     cfg = cfg or {}
     n = rng.randint(2, cfg.get("max_ops", 5))
     ops = []
-    by_size = sorted(range(len(pool)), key=lambda i: -len(pool[i].get("resonances", [])))
+    # files carrying the coherent-sum option raise the same AttributeError everywhere (finding F7): keep them rare
+    plain = [i for i in range(len(pool)) if "cartesian_option" not in (pool[i].get("tags") or [])] or list(range(len(pool)))
+    by_size = sorted(plain, key=lambda i: -len(pool[i].get("resonances", [])))
     last_file, last_cls = None, None
     for k in range(n):
         # bias: different file than the previous op; richer files first (residue shows when a poorer file follows)
-        choices = [i for i in range(len(pool)) if i != last_file] or list(range(len(pool)))
+        choices = [i for i in (plain if rng.random() < 0.85 else range(len(pool))) if i != last_file] or list(range(len(pool)))
         if rng.random() < 0.5:
             pos = min(len(by_size) - 1, int(abs(rng.gauss(0, 1)) + k * 0.7))
             fi = by_size[pos] if by_size[pos] in choices else rng.choice(choices)
@@ -632,6 +677,11 @@ def gen_history(rng: random.Random, pool: list, cfg: dict | None = None) -> dict
         for op in ops:
             op["content"] = op["file"]
             op["file"] = "model.opts"
+    # faults: some of the earlier calls are killed part-way (a later call must not see what they left behind)
+    p_int = cfg.get("p_interrupt", 0.2)
+    for i in range(len(ops) - 1):
+        if rng.random() < p_int:
+            ops[i] = {"op": "interrupt", "inner": ops[i], "k": int(10 ** rng.uniform(0.0, 3.6))}
     r = rng.random()
     clock = [] if r < 0.6 else [rng.choice([0, 2.5, -3600.0, 86400.0]) for _ in range(n)]
     return {"ops": ops, "clock": clock}
@@ -661,7 +711,7 @@ def run_history_case(case: dict) -> dict:
     if case.get("mode") == "twice":
         a = fork_call(run_ops, {"pool": pool, "ops": ops, "clock": case.get("clock")}, limit_s=case.get("limit_s", 900))
         b = fork_call(run_ops, {"pool": pool, "ops": ops, "clock": case.get("clock")}, limit_s=case.get("limit_s", 900))
-        seam = a["clock_reads"] >= sum(1 for o in ops if o["op"] == "convert")
+        seam = a["clock_reads"] >= sum(1 for o in ops if o["op"] == "convert")  # interrupted conversions may or may not have read it
         for i, (x, y) in enumerate(zip(a["obs"], b["obs"])):
             if not seam:  # the converters did not read the simulated clock: timestamps are real time, outside the property
                 x, y = strip_obs_timestamp(x), strip_obs_timestamp(y)
@@ -669,9 +719,12 @@ def run_history_case(case: dict) -> dict:
                 out.update(verdict="violation", signature={"check": "exact_reproducibility"}, detail={"op_index": i, "op": ops[i], "diff": first_diff(x, y)})
                 break
         return out
-    refs = [fork_call(run_ops, {"pool": pool, "ops": [op]}, limit_s=case.get("limit_s", 900))["obs"][0] for op in ops]
+    refs = [None if op["op"] == "interrupt" else fork_call(run_ops, {"pool": pool, "ops": [op]}, limit_s=case.get("limit_s", 900))["obs"][0]
+            for op in ops]
     hist = run_ops({"pool": pool, "ops": ops, "clock": case.get("clock")})["obs"]
     for i, (h, r) in enumerate(zip(hist, refs)):
+        if r is None:
+            continue
         d = compare_obs(r, h)
         if d is not None:
             out.update(verdict="violation", signature={"check": "history_independence", "kind": op_kind(ops[i]).rsplit(":", 1)[0]},
@@ -689,14 +742,18 @@ def c20_candidates(case: dict):
         yield {**case, "ops": ops[:-1], "clock": []}
     if case.get("clock"):
         yield {**case, "clock": []}
-    used = {o["file"] for o in ops} | {o["content"] for o in ops if o.get("content")}
+    for i, o in enumerate(ops):
+        if o["op"] == "interrupt":
+            yield {**case, "ops": ops[:i] + [o["inner"]] + ops[i + 1 :]}
+    flat = [o["inner"] if o["op"] == "interrupt" else o for o in ops]
+    used = {o["file"] for o in flat} | {o["content"] for o in flat if o.get("content")}
     pool = case["pool"]
     if any(f["name"] not in used for f in pool):
         yield {**case, "pool": [f for f in pool if f["name"] in used]}
     # reads instead of conversions for the earlier steps, plain variants
     for i, o in enumerate(ops[:-1]):
         if o["op"] == "convert":
-            yield {**case, "ops": ops[:i] + [{"op": "read", "cls": "GooFitChain" if o["lang"] == "cpp" else "GooFitPyChain", "file": o["file"], "by": "file"}] + ops[i + 1 :]}
+            yield {**case, "ops": ops[:i] + [{**({"content": o["content"]} if o.get("content") else {}), "op": "read", "cls": "GooFitChain" if o["lang"] == "cpp" else "GooFitPyChain", "file": o["file"], "by": "file"}] + ops[i + 1 :]}
     # smaller files: drop lines of each pool file
     for fi, f in enumerate(pool):
         lines = f["text"].split("\n")
